@@ -4,7 +4,9 @@ claimed={}
 for p in props:
     rp=f'/verif/registry/{p["id"]}.json'
     if os.path.exists(rp):
-        claimed[p['id']]=json.load(open(rp))
+        r=json.load(open(rp))
+        if r.get('ready'):
+            claimed[p['id']]=r
 fixes=subprocess.run(['git','-C','/repo','log','--format=%h','5580934..HEAD'],capture_output=True,text=True).stdout.split()
 m={"version":1,"setup_cmd":"./setup.sh",
  "hooks":{"guard":"verif","enable":"go build -tags verif (no hook files are needed so far: chunking uses a short-count io.Reader, panics are observed with recover, tables are read from source by tools/extract)",
